@@ -331,7 +331,9 @@ class RegexConstraint(Constraint):
         """Compile regex pattern once."""
         try:
             self._compiled = re.compile(self.pattern)
-        except re.error as e:
+        except (re.error, OverflowError, RecursionError) as e:
+            # re.compile also raises OverflowError (a{99999999999}) and RecursionError (thousands of
+            # nested groups): both are invalid patterns to the caller, like re.error.
             raise ValueError(f"Invalid regex pattern '{self.pattern}': {e}") from e
 
     def evaluate(self, value: Any, path: str = "") -> ValidationResult:
